@@ -253,6 +253,155 @@ theorem checkRequired_err (s : Summary) (exps : List Export) (req : List String)
       intro h'
       exact ⟨n, by simp, by cases h'; rfl⟩
 
+theorem enforceMemory_ok {c : Config} {s : Summary} {m : Mem} (h4 : enforceMemory c s = .ok m) :
+    (∃ m0, s.memSection = some [m0] ∧ m0.initial ≤ c.maxMemPages ∧ m.initial = m0.initial ∧
+      ∃ mx, m.maximum = some mx ∧ mx ≤ c.maxMemPages ∧
+        (m0.maximum = some mx ∨ (m0.maximum = none ∧ mx = c.maxMemPages))) ∧ memoryExported s = true := by
+  unfold enforceMemory at h4
+  cases hsec : s.memSection with
+  | none => rw [hsec] at h4; cases h4
+  | some l =>
+    cases l with
+    | nil => rw [hsec] at h4; cases h4
+    | cons m0 r =>
+      cases r with
+      | cons _ _ => rw [hsec] at h4; cases h4
+      | nil =>
+        rw [hsec] at h4; simp only at h4
+        by_cases a : m0.initial > c.maxMemPages
+        · rw [if_pos a] at h4; cases h4
+        · rw [if_neg a] at h4
+          cases hmx : m0.maximum with
+          | some mx =>
+            rw [hmx] at h4; simp only at h4
+            by_cases b : mx > c.maxMemPages
+            · rw [if_pos b] at h4; cases h4
+            · rw [if_neg b] at h4
+              by_cases e : memoryExported s = true
+              · rw [if_pos e] at h4
+                have hm : m = m0 := by cases h4; rfl
+                subst hm
+                exact ⟨⟨m, rfl, by omega, rfl, mx, hmx, by omega, Or.inl hmx⟩, e⟩
+              · rw [if_neg e] at h4; cases h4
+          | none =>
+            rw [hmx] at h4; simp only at h4
+            by_cases e : memoryExported s = true
+            · rw [if_pos e] at h4; cases h4
+              exact ⟨⟨m0, rfl, by omega, rfl, c.maxMemPages, rfl, Nat.le_refl _, Or.inr ⟨hmx, rfl⟩⟩, e⟩
+            · rw [if_neg e] at h4; cases h4
+
+theorem enforceMemory_err {c : Config} {s : Summary} {e : Err} (h4 : enforceMemory c s = .error e) :
+    e = .missingMemorySection ∨ e = .noMemoryDefinition ∨ e = .memorySizeLimitExceeded ∨ e = .memoryNotExported ∨
+    (e = .tooManyMemoryDefinition ∧ (s.memSection.getD []).length ≥ 2) := by
+  unfold enforceMemory at h4
+  cases hsec : s.memSection with
+  | none => rw [hsec] at h4; cases h4; simp
+  | some l =>
+    cases l with
+    | nil => rw [hsec] at h4; cases h4; simp
+    | cons m0 r =>
+      cases r with
+      | cons _ _ => rw [hsec] at h4; cases h4; simp
+      | nil =>
+        rw [hsec] at h4; simp only at h4
+        by_cases a : m0.initial > c.maxMemPages
+        · rw [if_pos a] at h4; cases h4; simp
+        · rw [if_neg a] at h4
+          cases hmx : m0.maximum with
+          | some mx =>
+            rw [hmx] at h4; simp only at h4
+            by_cases b : mx > c.maxMemPages
+            · rw [if_pos b] at h4; cases h4; simp
+            · rw [if_neg b] at h4
+              by_cases e : memoryExported s = true
+              · rw [if_pos e] at h4; cases h4
+              · rw [if_neg e] at h4; cases h4; simp
+          | none =>
+            rw [hmx] at h4; simp only at h4
+            by_cases e : memoryExported s = true
+            · rw [if_pos e] at h4; cases h4
+            · rw [if_neg e] at h4; cases h4; simp
+
+theorem enforceTable_err {c : Config} {s : Summary} {e : Err} (h5 : enforceTable c s = .error e) :
+    e = .initialTableSizeLimitExceeded ∨ (e = .moreThanOneTable ∧ (s.tableSection.getD []).length ≥ 2) := by
+  unfold enforceTable at h5
+  cases hs : s.tableSection with
+  | none => rw [hs] at h5; cases h5
+  | some sec =>
+    rw [hs] at h5; simp only at h5
+    by_cases a : sec.length > 1
+    · rw [if_pos a] at h5; cases h5; simp; omega
+    · rw [if_neg a] at h5
+      cases sec with
+      | nil => cases h5
+      | cons t r =>
+        simp only at h5
+        by_cases b : t > c.maxTable
+        · rw [if_pos b] at h5; cases h5; simp
+        · rw [if_neg b] at h5; cases h5
+
+theorem checkImport_err {c : Config} {i : Import} {e : Err} (h : checkImport c i = .error e) :
+    (∃ n, e = .importNotAllowed n) ∨ (∃ n a b, e = .protocolMismatch n a b) ∨ (∃ n, e = .invalidFunctionType n) := by
+  unfold checkImport at h
+  by_cases hm : i.modName = ENV
+  · rw [if_pos hm] at h
+    cases hl : lookupHost c.host i.name with
+    | none => rw [hl] at h; cases h; exact Or.inl ⟨_, rfl⟩
+    | some hf =>
+      rw [hl] at h; simp only at h
+      by_cases hv : c.version < hf.minVersion
+      · rw [if_pos hv] at h; cases h; exact Or.inr (Or.inl ⟨_, _, _, rfl⟩)
+      · rw [if_neg hv] at h
+        cases hk : i.kind with
+        | func sg =>
+          rw [hk] at h; simp only at h
+          by_cases hs : sg = hf.sig
+          · rw [if_pos hs] at h; cases h
+          · rw [if_neg hs] at h; cases h; exact Or.inr (Or.inr ⟨_, rfl⟩)
+        | global => rw [hk] at h; cases h; exact Or.inl ⟨_, rfl⟩
+        | memory => rw [hk] at h; cases h; exact Or.inl ⟨_, rfl⟩
+        | table => rw [hk] at h; cases h; exact Or.inl ⟨_, rfl⟩
+        | tag => rw [hk] at h; cases h; exact Or.inl ⟨_, rfl⟩
+  · rw [if_neg hm] at h; cases h; exact Or.inl ⟨_, rfl⟩
+
+theorem enforceImports_err {c : Config} {is : List Import} {e : Err} (h : enforceImports c is = .error e) :
+    (∃ n, e = .importNotAllowed n) ∨ (∃ n a b, e = .protocolMismatch n a b) ∨ (∃ n, e = .invalidFunctionType n) := by
+  induction is with
+  | nil => cases h
+  | cons i r ih =>
+    unfold enforceImports at h
+    cases hc : checkImport c i with
+    | ok _ => rw [hc] at h; exact ih h
+    | error e' => rw [hc] at h; cases h; exact checkImport_err hc
+
+theorem checkParamsAt_err {c : Config} {fm : List Sig} {idx : List Nat} {e : Err}
+    (h : checkParamsAt c fm idx = .error e) : e = .moduleInfoError ∨ e = .tooManyFunctionParams := by
+  induction idx with
+  | nil => cases h
+  | cons i r ih =>
+    unfold checkParamsAt at h
+    cases hf : fm[i]? with
+    | none => rw [hf] at h; cases h; exact Or.inl rfl
+    | some sg =>
+      rw [hf] at h; simp only at h
+      by_cases hp : sg.params.length > c.maxParams
+      · rw [if_pos hp] at h; cases h; exact Or.inr rfl
+      · rw [if_neg hp] at h; exact ih h
+
+theorem checkLocals_err {c : Config} {fs : List Func} {e : Err} (h : checkLocals c fs = .error e) :
+    e = .overflow ∨ ∃ a b, e = .tooManyFunctionLocals a b := by
+  induction fs with
+  | nil => cases h
+  | cons f r ih =>
+    unfold checkLocals at h
+    cases hs : sumLocalsFrom 0 f.localGroups with
+    | none => rw [hs] at h; cases h; exact Or.inl rfl
+    | some n =>
+      rw [hs] at h; simp only at h
+      by_cases hp : n > c.maxLocals
+      · rw [if_pos hp] at h; cases h; exact Or.inr ⟨_, _, rfl⟩
+      · rw [if_neg hp] at h; exact ih h
+
 theorem minStr_mem : ∀ (l : List String) (x : String), minStr l = some x → x ∈ l
   | [], x => by simp [minStr]
   | a :: r, x => by
